@@ -2,6 +2,7 @@ package mon
 
 import (
 	"bytes"
+	"crypto/sha256"
 	"encoding/hex"
 	"fmt"
 	"reflect"
@@ -83,6 +84,23 @@ func checkC01(c *core.Ctx, pc pcase) {
 		}
 		if ok {
 			c.Bucket("reserialised-after-overwrite/" + pc.p.Kind)
+		}
+	}
+	// the serialisation handed out stays what it was while another value of the same kind is
+	// parsed and serialised (a serialiser must not hand out storage it reuses for the next call)
+	if !trivialKind(pc.p.Kind) && len(out.Ser) > 0 {
+		h := sha256.Sum256(pc.in)
+		other := gen.WellFormed(pc.p.Kind, pc.p.Arg, core.NewRand(c.Seed, "c01-companion", hex.EncodeToString(h[:8])))
+		out2, p2, _, _ := callParser(c, pc.p, other.Bytes)
+		if !p2 && out2.Accepted {
+			if v2 := reflect.ValueOf(out2.Val); out2.Val != nil && !isBytesType(v2) {
+				reserialise(v2)
+			}
+			if !bytes.Equal(out.Ser, consumed) {
+				c.Violate(pc.p.Name, "earlier-serialisation-changed-by-later-call", sh, pc.in, "after another value was parsed and serialised: "+describeDiff(consumed, out.Ser))
+				return
+			}
+			c.Bucket("serialisation-retained-across-later-calls/" + pc.p.Kind)
 		}
 	}
 	if pc.class != "wellformed" {
